@@ -29,6 +29,10 @@ const TEXTS: &[&str] = &[
     "é",
     "",
     "def f():\r    return 'ü'\r\n# end",
+    "# a long ASCII prefix before the first non-ASCII character: 0123456789 0123456789 0123456789 é = 1\nz = 'ü→😀'\n",
+    "λ = 'ü'",
+    "x = 1\ny = 2\n",
+    "\u{feff}é\n\u{feff}",
 ];
 
 /// Private files of the worker threads: each thread also builds its own lazily indexed
@@ -63,7 +67,7 @@ enum Op {
 
 fn gen_ops(r: &mut Rng, n: usize) -> Vec<Op> {
     (0..n)
-        .map(|_| match r.below(8) {
+        .map(|i| match if i == 0 { 1 + r.below(2) * 6 } else { r.below(8) } {
             0 => Op::Touch,
             1 | 2 => Op::Query(r.next_u32()),
             3 => Op::Row(r.next_u32()),
@@ -147,8 +151,8 @@ fn main() {
     let seed: u64 = args.get(1).and_then(|s| s.parse().ok()).unwrap_or(1);
     let script: u64 = args.get(2).and_then(|s| s.parse().ok()).unwrap_or(0);
     let mut r = Rng::new(derive(seed, &[0xC15, script]));
-    let text: &'static str = TEXTS[(script as usize + r.below(2) as usize) % TEXTS.len()];
-    let n_threads = 2 + (script % 2) as usize;
+    let text: &'static str = TEXTS[(script as usize + r.below(2) as usize * 5) % TEXTS.len()];
+    let n_threads = 2 + (script % 3) as usize;
     let prebuilt = r.chance(1, 4);
     let ix = LineIndex::from_source_text(text);
     let sf = if prebuilt {
